@@ -1,3 +1,4 @@
+import CpModel.Gen.C17Tables
 /-
   C17 model, part 1: the hand-rolled gzip member of `cherrypy/lib/encoding.py: compress()`.
 
@@ -60,8 +61,9 @@ def Z.Lawful (z : Z) : Prop :=
 
 /-! ### `compress(body, compress_level)` -/
 
+/-- `_COMPRESSION_LEVEL_BEST` / `_COMPRESSION_LEVEL_FAST` come from the generated table -/
 def xfl (level : Nat) : UInt8 :=
-  if level = 9 then 2 else if level = 1 then 4 else 0
+  if level = Gen.C17.levelBest then 2 else if level = Gen.C17.levelFast then 4 else 0
 
 /-- the six header yields -/
 def headerChunks (level mtime : Nat) : List Bytes :=
